@@ -422,6 +422,28 @@ example : (runOps exampleDoc exampleLines exampleOps).heap.map (fun o => (o.bin,
     = [(0, none, 1), (1, some ("2", "1"), 0), (1, some ("2", "1"), 2)] := by
   decide +kernel
 
+/-- every line of a file is at least one byte long (its line end), and then the positions handed to the
+callback are STRICTLY increasing — for any list of lines and any callback.  So no two invocations see the
+same position, and a callback that answers by counting its invocations (what a progress dialog or the
+harness does) is a function of the position, which is how the state machine takes it (`cb : Nat → Bool`) -/
+theorem callback_positions_strict (cb : Nat → Bool) (ls : List (Line × Nat)) (hlen : ∀ ln ∈ ls, 0 < ln.2) :
+    (run cb ls).calls.Pairwise (· < ·) :=
+  (runS_posInvS cb ls St.init hlen ⟨by simp [St.init], by intro p hp; simp [St.init] at hp⟩).1
+
+example : ∀ ln ∈ exampleLines, 0 < ln.2 := by decide +kernel
+
+/-! ## number conversions -/
+
+/-- `int()` and `float()` read a text of ASCII digits as the same number: where the model converts a
+position or size with `pyNat`, the exact decimal value `float()` rounds (`pyFloat = nearestF64 ∘
+decimalValue`) is that natural number — `052676` is 52676 for both -/
+theorem decimalValue_of_digits (s : String) (n : Nat) (h : pyNat s = some n) : decimalValue s = some (n : Rat) :=
+  decimalValue_of_digits' s n h
+
+example : pyNat "052676" = some 52676 ∧ pyFloat "052676" = some 52676 ∧ pyFloat "1.500000e+06" = some 1500000 ∧
+    pyFloat " -2.5E-3 " = some (-5764607523034235 / 2305843009213693952) ∧ pyFloat "inf" = none ∧ pyNat "+5" = none := by
+  decide +kernel
+
 /-! ## text lines -/
 
 /-- the state machine does not tell the inert lines apart: any two lists of lines that agree up to
